@@ -10,6 +10,7 @@
 From AS Require Import Base Effects.
 From AS.Model Require Import Sgr Tokenizer Table Ops Render Scrub Parse StrOps FormatSpec Exec.
 From AS.Proofs Require Import TableProofs SliceProofs ExecProofs.
+From AS.Proofs Require EqProofs.
 
 (* frame: existing objects other than the receiver are untouched; objects are only ever appended *)
 Theorem C08_frame : forall p op p' idxs extra,
@@ -62,3 +63,31 @@ Print Assumptions C08_inplace_same_value.
 Theorem C08_error_unchanged : forall p op e, exec p op = Err e -> fst (step_out p op) = p.
 Proof. exact step_out_err. Qed.
 Print Assumptions C08_error_unchanged.
+
+(* "COMPARE EQUAL" MEANS INDISTINGUISHABLE.  astr_eqb is == as repaired (known finding F58): same text, same marker texts, and
+   the same setting texts in effect after every marker.  Values that compare equal report the same settings on every
+   character, have the same flags and render to the same string under every flag set - identities never show; == is an
+   equivalence.  Before the repair the third condition was missing: C08_old_eq_differs shows two tables with equal marker
+   texts whose stop markers pair up with different objects, reporting different settings on one character and rendering
+   differently. *)
+Theorem C08_eq_same_settings : forall a b, astr_eqb a b = true ->
+  base a = base b /\ forall i, map stxt (active_at (tbl a) i) = map stxt (active_at (tbl b) i).
+Proof. exact EqProofs.eq_same_texts_gen. Qed.
+Print Assumptions C08_eq_same_settings.
+
+Theorem C08_eq_same_render : forall a b opt rs re, astr_eqb a b = true -> to_str a opt rs re = to_str b opt rs re.
+Proof. exact EqProofs.eq_same_render. Qed.
+Print Assumptions C08_eq_same_render.
+
+Theorem C08_eq_same_flags : forall a b, astr_eqb a b = true ->
+  is_valid_tbl (tbl a) = is_valid_tbl (tbl b) /\ is_parsable_tbl (tbl a) = is_parsable_tbl (tbl b).
+Proof. exact EqProofs.eq_same_flags. Qed.
+
+Theorem C08_eq_equivalence :
+  (forall a, astr_eqb a a = true) /\ (forall a b, astr_eqb a b = astr_eqb b a)
+  /\ (forall a b c, astr_eqb a b = true -> astr_eqb b c = true -> astr_eqb a c = true).
+Proof. split; [exact EqProofs.astr_eqb_refl|]. split; [exact EqProofs.astr_eqb_sym|exact EqProofs.astr_eqb_trans]. Qed.
+Print Assumptions C08_eq_equivalence.
+
+Example C08_old_eq_differs := (EqProofs.old_eq_holds, EqProofs.new_eq_rejects, EqProofs.old_eq_texts_differ, EqProofs.old_eq_render_differ).
+Example C08_fresh_copy_equal := EqProofs.fresh_copy_equal.
